@@ -24,6 +24,8 @@ TABLE = {
                 text="Every lattice up to the bounds x every assignment of parameter classes to three methods x complete/direct-only base lists x both record orders: each (method,parameter) applicable to a class has its own in-range cell; a bounds-checked re-implementation of the table walk stays inside dispatch_data and agrees with the real resolve, which also runs under AddressSanitizer.", ref="3/C04"),
     "C06": dict(engine="E1 regx", technique="exhaustive enumeration of registration-order permutations (classes x methods x definitions x base-list rotations) of every registry in bounds, differential + reference model",
                 text="For every registry in bounds all permutations of class records (n<=4) / reversal and rotations (n=5), all definition orders, both method orders: every observable equals the first permutation's and the order-free model's.", ref="3/C06"),
+    "C07": dict(engine="E2 histx", technique="explicit-state BFS over registration/update histories on the real catalogs and update (state = history replayed in a forked pristine process, dedup on live catalogs + persistent implementation state), 5 RTTI/hash flavours; reference model + differential vs fresh process + idempotence",
+                text="All histories up to depth 5 (6 thorough) from the empty state and depth 4 (5) from the fully registered state over 12 operations (toggle 5 class records, 2 methods, 4 definitions; update): after every update the predicted success/error, every legal call and next vs the model and vs a fresh process given the same registrations, and a second update changes nothing.", ref="3/C07"),
     "C08": dict(engine="E1 regx", technique="exhaustive enumeration of presentations of every inheritance graph in bounds (subsets between direct and transitive bases, self, duplicates, split records, rotations, record orders)",
                 text="For every poset in bounds every presentation: the lattice the real compiler reconstructs (covariant sets, direct bases), slot disjointness, dispatch and next all equal the model's.", ref="3/C08"),
     "C10": dict(engine="E1 regx", technique="bounded-exhaustive exploration of the same registries under six RTTI flavours (std, integer, many-to-one projection with/without hash, deferred with/without hash), all alias assignments, second update; reference model + cross-flavour digest",
@@ -32,6 +34,9 @@ TABLE = {
                 text="Every registry in bounds: the numbers the real generator writes equal, position by position, what update installed; fed back as static offsets every legal tuple dispatches like the model (release and debug policies); every perturbed number is rejected by the debug consistency check with the right error before a definition runs.", ref="3/C12"),
     "C13": dict(engine="E1 regx", technique="bounded-exhaustive exploration of lattices x method sets: emitted text parsed, reference decoder (exact consumption, in-place safety), real decoder between guard pages, dispatch after decode vs after update vs model",
                 text="Every registry in bounds (incl. unused classes, first slot != 0, error cells): the emitted structure has non-negative sizes and fitting initialisers; decoding consumes exactly the emitted codes, never overwrites unread input, stays inside the structure (guard pages, ASan build), and afterwards every legal tuple dispatches exactly as after update.", ref="3/C13"),
+    "C14": dict(engine="E2 iso", technique="exhaustive enumeration of all operation sequences (interleavings) up to a depth over 2-3 policies sharing classes, snapshot-invariance of every non-acting policy after each operation + reference model",
+                text="Every sequence of <= 4 (5) operations over two policies (3 in thorough) from the pristine state and <= 3 (4) from a fully set-up policy, 10 operations per policy incl. real class_declaration objects, real add_function with a shared function, update, handler installation, virtual_ptr creation: no operation on one policy changes any observable of another.", ref="3/C14",
+                note="Trusted base: compiler, harness e2/iso.cpp. Worlds are reset explicitly between sequences; policies come from rebind/replace as documented."),
     "C15": dict(engine="E1 regx", technique="bounded-exhaustive exploration: every registry x every class left out x every place and argument route, on the stock debug policy, with AddressSanitizer as crash/garbage-read monitor",
                 text="Every registry in bounds x each class omitted in turn from its record while still used as base / method parameter / definition parameter (update must report unknown_class_error with its id) or only as the dynamic class of an argument on 8 argument routes incl. exact-type virtual_ptr (error at call/construction, no body run, no crash); final with a wrong dynamic type gives method_table_error.", ref="3/C15"),
     "C17": dict(engine="E1 regx", technique="bounded-exhaustive exploration of registries x all abstract-flag assignments: update report vs exhaustive tuple enumeration by the reference model",
@@ -48,6 +53,7 @@ TABLE = {
 }
 
 ENGINES = [
+    {"name": "E2 histx", "path": "e1/drivers_history.hpp, e2/", "serves_properties": ["C03", "C07", "C14"], "kind_free_text": "explicit-state BFS over registration histories (fork-replayed) and exhaustive interleavings over several policies"},
     {"name": "E3 hashx", "path": "e3/", "serves_properties": ["C05"], "kind_free_text": "enumerator of id sets / publish histories / budgets over the real perfect-hash facets"},
     {"name": "E6 listx", "path": "e6/", "serves_properties": ["C18"], "kind_free_text": "explicit-state BFS over static_list and registration-object lifetimes"},
     {"name": "E7 fwdx", "path": "e7/", "serves_properties": ["C19"], "kind_free_text": "exhaustive name-set / type-grammar enumeration through the real generator"},
